@@ -69,6 +69,8 @@ func init() {
 			ruleCfgListen(c, "C18.CFG.LISTEN")
 			ruleCfgPlugins(c, "C18.CFG.PLUGINS")
 			ruleParseOrder(c, "C18.CFG.PLUGINS")
+			ruleArgsImmutable(c, "C18.CFG.ARGS-RO")
+			c.R.Floor("C18.CFG.ARGS-RO", 1)
 			c.R.Floor("C18.CFG.PANIC", 2)
 			c.R.Floor("C18.CFG.BOUNDS", 2)
 			c.R.Floor("C18.CFG.ADDR", 3)
